@@ -204,7 +204,7 @@ type BGVCase struct {
 	OutLen    int       `json:"outLen"`    // output length (clamped to the slot count)
 	Pat       string    `json:"pat"`
 	Seed      uint64    `json:"seed"`
-	Dirty     bool      `json:"dirty"` // the plaintext and the encoder were used before for another (full) vector
+	Dirty     bool      `json:"dirty"`            // the plaintext and the encoder were used before for another (full) vector
 	LongIn    bool      `json:"longIn,omitempty"` // first, an input one element longer than the slot count: Encode must return an error
 	// Then is a second, fully checked round trip on the SAME encoder and the SAME plaintext object (same parameters and level)
 	Then *BGVCase `json:"then,omitempty"`
@@ -548,6 +548,6 @@ func stepBGV(c BGVCase, sh *bgvShared, rec *h.Rec) error {
 	return nil
 }
 
-var propBGV = h.NewProp("TestPropBGVRoundTrip", h.Budget{Quick: 1200, Thorough: 20000}, genBGV, runBGV)
+var propBGV = h.NewProp("TestPropBGVRoundTrip", h.Budget{Quick: 900, Thorough: 14000}, genBGV, runBGV)
 
 func TestPropBGVRoundTrip(t *testing.T) { propBGV.Check(t) }
